@@ -1,6 +1,6 @@
 (* C08 - the location table reflects the newest valid information about each station.
    Audited statements only; proofs in Proofs/LocTProofs.v and Proofs/RouterProofs.v. *)
-From FlexVerif Require Import Base.Prelude Model.LocT Model.Wire Model.Router Proofs.LocTProofs Proofs.RouterProofs.
+From FlexVerif Require Import Base.Prelude Model.LocT Model.Wire Model.Router Proofs.LocTProofs Proofs.RouterProofs Gen.SrcGeonet Proofs.SrcLifetimeEquiv.
 
 (* -- timestamp comparison is a consistent wrap-around aware order (all pairs, no bound) -- *)
 Theorem C08_tst_irreflexive : forall a, tst_gt a a = false.
@@ -123,3 +123,22 @@ Example C08_example :
   keep 1000 20000 (mkEntry [0; 5; 1] [0; 5; 1; 1500; 0; 0; 1; 0; 0] true true false []) = true /\
   keep 30000 20000 (mkEntry [0; 5; 1] [0; 5; 1; 1500; 0; 0; 1; 0; 0] true true false []) = false.
 Proof. vm_compute. repeat split. Qed.
+
+(* ---- the timestamp operators REGENERATED FROM THE SOURCE on every run (Gen/SrcGeonet.v, tools/pyz.py: TST.__gt__, __ge__,
+   __lt__, __le__, __eq__, __sub__, __add__, encode, decode) are the model's, for all arguments; hence every theorem above
+   about tst_gt / tst_sub is a theorem about the code's operators. *)
+Theorem C08_source_timestamp_order_is_the_model : forall a b,
+  TST_gt a b = tst_gt a b /\ TST_ge a b = ((a =? b) || tst_gt a b) /\ TST_lt a b = negb ((a =? b) || tst_gt a b)
+  /\ TST_le a b = negb (tst_gt a b) /\ TST_eq a b = (a =? b).
+Proof. exact src_tst_order. Qed.
+Print Assumptions C08_source_timestamp_order_is_the_model.
+
+Theorem C08_source_timestamp_arithmetic_is_the_model : forall a b,
+  TST_sub a b = tst_sub a b /\ TST_add a b = (a + b) mod 2 ^ 32 /\ TST_encode a = a mod 2 ^ 32 /\ TST_decode a = a mod 2 ^ 32.
+Proof. exact src_tst_arith. Qed.
+Print Assumptions C08_source_timestamp_arithmetic_is_the_model.
+
+Theorem C08_source_order_agrees_with_real_time : forall t d, 0 < d < 2 ^ 31 ->
+  TST_gt ((t + d) mod 2 ^ 32) (t mod 2 ^ 32) = true /\ TST_gt (t mod 2 ^ 32) ((t + d) mod 2 ^ 32) = false.
+Proof. exact src_tst_real. Qed.
+Print Assumptions C08_source_order_agrees_with_real_time.
